@@ -1,16 +1,156 @@
 package main
 
-// Replay of solver models against the real code (DESIGN 2.11). Per-property
-// templates are registered in replayers; without one the violation line ends
-// with no-failing-input-found.
+// Replay of failed obligations against the real code (DESIGN 2.11) and bounded
+// stand-ins (DESIGN 2.13). Both run in-package Go tests from
+// /verif/replay/templates through `go test -overlay`, so nothing is written to
+// the repository.
 
-type replayer func(name string, r *oblResult, replayFile, repo, verif string) bool
+import (
+	"context"
+	"encoding/json"
+	"fmt"
+	"os"
+	"os/exec"
+	"path/filepath"
+	"regexp"
+	"strconv"
+	"strings"
+	"time"
+)
 
-var replayers = map[string]replayer{}
+type replayEntry struct {
+	Match    string            `json:"match"`    // obligation name prefix/substring
+	Property string            `json:"property"` // for bounded entries
+	Template string            `json:"template"`
+	Target   string            `json:"target"` // file name inside PkgDir the template is injected as
+	PkgDir   string            `json:"pkgdir"` // relative to repo root
+	Run      string            `json:"run"`
+	Env      map[string]string `json:"env"`
+	Bounded  bool              `json:"bounded"`
+	Bound    string            `json:"bound"`
+	Name     string            `json:"name"`
+	Tier     string            `json:"tier"` // bounded: "quick" runs in both tiers
+}
+
+func readReplayIndex(verif string) []replayEntry {
+	data, err := os.ReadFile(filepath.Join(verif, "replay", "index.json"))
+	if err != nil {
+		return nil
+	}
+	var out []replayEntry
+	if err := json.Unmarshal(data, &out); err != nil {
+		fmt.Fprintln(os.Stderr, "gocv: bad replay/index.json:", err)
+	}
+	return out
+}
+
+type replayOutcome struct {
+	ran      bool
+	failed   bool // the test failed: the violation is reproduced on the real code
+	output   string
+	cmd      string
+	cases    int
+	failures int
+}
+
+func runTemplate(e replayEntry, repo, verif, outDir, tag string, extraEnv map[string]string) replayOutcome {
+	os.MkdirAll(outDir, 0o755)
+	tmpl := filepath.Join(verif, "replay", "templates", e.Template)
+	if _, err := os.Stat(tmpl); err != nil {
+		return replayOutcome{}
+	}
+	ov := map[string]map[string]string{"Replace": {filepath.Join(repo, e.PkgDir, e.Target): tmpl}}
+	ovPath := filepath.Join(outDir, fileSafe(tag)+".overlay.json")
+	data, _ := json.Marshal(ov)
+	os.WriteFile(ovPath, data, 0o644)
+	ctx, cancel := context.WithTimeout(context.Background(), 15*time.Minute)
+	defer cancel()
+	args := []string{"test", "-overlay", ovPath, "-vet=off", "-count=1", "-timeout", "600s", "-run", "^" + e.Run + "$", "-v", "./" + e.PkgDir}
+	cmd := exec.CommandContext(ctx, "go", args...)
+	cmd.Dir = repo
+	cmd.Env = os.Environ()
+	var envs []string
+	for k, v := range e.Env {
+		cmd.Env = append(cmd.Env, k+"="+v)
+		envs = append(envs, k+"="+v)
+	}
+	for k, v := range extraEnv {
+		cmd.Env = append(cmd.Env, k+"="+v)
+		envs = append(envs, k+"="+v)
+	}
+	out, err := cmd.CombinedOutput()
+	o := replayOutcome{ran: true, output: string(out), cmd: fmt.Sprintf("cd %s && %s go %s", repo, strings.Join(envs, " "), strings.Join(args, " "))}
+	if m := regexp.MustCompile(`GOCV-BOUNDED sequences=(\d+) failures=(\d+)`).FindStringSubmatch(o.output); m != nil {
+		o.cases, _ = strconv.Atoi(m[1])
+		o.failures, _ = strconv.Atoi(m[2])
+	} else if m := regexp.MustCompile(`GOCV-BOUNDED cases=(\d+) failures=(\d+)`).FindStringSubmatch(o.output); m != nil {
+		o.cases, _ = strconv.Atoi(m[1])
+		o.failures, _ = strconv.Atoi(m[2])
+	}
+	if err != nil && strings.Contains(o.output, "GOCV-REPLAY-FAIL") {
+		o.failed = true
+	} else if err != nil && !strings.Contains(o.output, "--- FAIL") && !strings.Contains(o.output, "--- PASS") {
+		// build problem or timeout: not a reproduction
+		o.output += "\n(replay could not be executed: " + err.Error() + ")"
+	} else if err != nil && strings.Contains(o.output, "--- FAIL") {
+		o.failed = true
+	}
+	return o
+}
 
 func tryReplay(prop, name string, r *oblResult, replayFile, repo, verif string) bool {
-	if f, ok := replayers[prop]; ok {
-		return f(name, r, replayFile, repo, verif)
+	for _, e := range readReplayIndex(verif) {
+		if e.Bounded || e.Match == "" || !strings.Contains(name, e.Match) {
+			continue
+		}
+		o := runTemplate(e, repo, verif, filepath.Dir(replayFile), name, modelEnv(r))
+		if !o.ran {
+			continue
+		}
+		f, _ := os.OpenFile(replayFile, os.O_APPEND|os.O_WRONLY, 0o644)
+		if f != nil {
+			fmt.Fprintf(f, "\n---- replay against the real code ----\ncommand: %s\nreproduced: %v\n%s\n", o.cmd, o.failed, trunc(o.output, 20000))
+			f.Close()
+		}
+		if o.failed {
+			return true
+		}
 	}
 	return false
+}
+
+// modelEnv exposes simple scalar model values to the replay template.
+func modelEnv(r *oblResult) map[string]string {
+	out := map[string]string{}
+	if r == nil || r.failQuery == nil {
+		return out
+	}
+	out["GOCV_OBLIGATION"] = r.Name
+	return out
+}
+
+type boundedResult struct {
+	Name     string `json:"name"`
+	Bound    string `json:"bound"`
+	Cases    int    `json:"cases"`
+	Failures int    `json:"failures"`
+	Cmd      string `json:"cmd"`
+	Ran      bool   `json:"ran"`
+	failed   bool
+	output   string
+}
+
+func runBounded(prop, tier, repo, verif string) []boundedResult {
+	var out []boundedResult
+	for _, e := range readReplayIndex(verif) {
+		if !e.Bounded || e.Property != prop {
+			continue
+		}
+		if tier == "quick" && e.Tier != "quick" {
+			continue
+		}
+		o := runTemplate(e, repo, verif, filepath.Join(verif, "out", "replay", prop), "bounded_"+e.Name, nil)
+		out = append(out, boundedResult{Name: e.Name, Bound: e.Bound, Cases: o.cases, Failures: o.failures, Cmd: o.cmd, Ran: o.ran, failed: o.failed, output: o.output})
+	}
+	return out
 }
